@@ -61,7 +61,9 @@ fn main() {
             // the command lines the run would start (pipes.rs), for the same options
             let exp = match filter_repo_rs::verif_hooks::build_fast_export_cmd(&o) { Ok(c) => cmdline(&c, false), Err(_) => "err".to_string() };
             let imp = cmdline(&filter_repo_rs::verif_hooks::build_fast_import_cmd(&o), true);
-            println!("FRRS-OPTS ok {}|export={}|import={}", render(&o), exp, imp)
+            // lib.rs validate_options on the same options
+            let valid = filter_repo_rs::verif_hooks::validate_options_ok(&o);
+            println!("FRRS-OPTS ok {}|export={}|import={}|valid={}", render(&o), exp, imp, b(valid))
         }
         Err(_) => println!("FRRS-OPTS err"),
     }
